@@ -234,7 +234,8 @@ func RunC04(run *vk.Run) {
 		}
 		// AP reset vectors: the fixture's address and addresses with every nibble of the low half set
 		// (rip = low 16 bits, cs.base = high 16 bits); chosen independently of the sampling stride
-		resetPool := []uint32{0xff0000ff, 0x8123f0a0, 0xfffff05c, 0x00019000, 0xabcd1234}
+		resetPool := []uint32{0xff0000ff, 0x8123f0a0, 0xfffff05c, 0x00019000, 0xabcd1234,
+			0x00800000, 0xffff0000, 0x0000b004} // 64 KiB aligned (rip 0), below 64 KiB (cs.base 0)
 		resetAddr := resetPool[(uint32(i)*2654435761>>11)%uint32(len(resetPool))]
 		img, err := buildSnpImage(c.Fw, run.Seed*7+int64(i), resetAddr)
 		if err != nil {
